@@ -1,6 +1,10 @@
-"""dev helper: python py/mk.py target.vo ... (regenerates _CoqProject/Makefile first)"""
+"""dev helper: python py/mk.py target.vo ... (regenerates gen/*.v, _CoqProject/Makefile first)"""
 import sys
 from lib.common import coq_make
+from py2v.all import generate_all
+for k, v in generate_all().items():
+    if isinstance(v, str):
+        print(k, v)
 ok, out = coq_make(sys.argv[1:] or ['all'])
 print(out[-6000:])
 sys.exit(0 if ok else 1)
